@@ -121,7 +121,7 @@ def check(ctx: Ctx) -> None:
     def is_incr(s):
         return isinstance(s, ast.AugAssign) and attr_chain(s.target) in (["self", "_dictionary_size"],)
 
-    def walk_block(body, pending, top_count):
+    def walk_block(body, pending, top_count, index_name=None):
         for s in body:
             if is_insert(s):
                 n_ins[0] += 1
@@ -134,6 +134,8 @@ def check(ctx: Ctx) -> None:
                     okv = src(v) in ("self.dictionary_size", "len(self.dictionary)")
                 if isinstance(v, ast.Constant) and isinstance(v.value, int) and top_count[0] is not None:
                     okv = v.value == top_count[0]
+                if index_name is not None and isinstance(v, ast.Name) and v.id == index_name:
+                    okv = True          # the count of an `enumerate` that started at the size reached so far, one insertion per round
                 ctx.check(okv, "TPL2", f"insertion `{short(s, 60)}` stores the running size", function=fv.qualname,
                           construct="vocabulary insertion stores something other than the running size",
                           message=f"value `{short(v)}` (entries inserted before: {top_count[0]})", file=fv.file, node=s)
@@ -149,8 +151,18 @@ def check(ctx: Ctx) -> None:
                 if top_count[0] is not None:
                     top_count[0] += 1
             elif isinstance(s, (ast.For, ast.While)):
+                idx = None
+                if isinstance(s, ast.For) and isinstance(s.iter, ast.Call) and src(s.iter.func) == "enumerate" and isinstance(s.target, ast.Tuple) \
+                        and len(s.target.elts) == 2 and isinstance(s.target.elts[0], ast.Name) and top_count[0] is not None and not pending:
+                    start = s.iter.args[1] if len(s.iter.args) > 1 else next((k.value for k in s.iter.keywords if k.arg == "start"), None)
+                    start_v = 0 if start is None else (start.value if isinstance(start, ast.Constant) else None)
+                    one_each = sum(1 for x in s.body if is_insert(x)) == 1 and sum(1 for x in s.body if is_incr(x)) == 1 \
+                        and not any(is_insert(y) or is_incr(y) for x in s.body if not (is_insert(x) or is_incr(x)) for y in ast.walk(x)) \
+                        and not any(isinstance(y, (ast.Continue, ast.Break)) for x in s.body for y in ast.walk(x))
+                    if start_v == top_count[0] and one_each:
+                        idx = s.target.elts[0].id
                 top_count[0] = None
-                end = walk_block(s.body, pending, top_count)
+                end = walk_block(s.body, pending, top_count, idx)
                 ctx.check(end == pending, "TPL2", f"loop body at line {s.lineno} keeps insertion/increment balanced", function=fv.qualname,
                           construct="loop body leaves an insertion without its increment", message="", file=fv.file, node=s)
             elif isinstance(s, ast.If):
@@ -165,7 +177,7 @@ def check(ctx: Ctx) -> None:
     endp = walk_block(fv.node.body, False, [0])
     ctx.check(not endp, "TPL2", "last insertion is followed by its increment", function=fv.qualname,
               construct="last vocabulary insertion not followed by an increment", message="", file=fv.file, node=fv.node)
-    ctx.floor("vocabulary insertion statements", n_ins[0], 9)
+    ctx.floor("vocabulary insertion statements", n_ins[0], 6)          # special tokens (one site or four), REST, TRACK, VALUE, VELOCITY, note, TIME_SIGNATURE
     r = ds_ret
     init = p.func(f"{TOK}.__init__")
     if len_mode:
@@ -356,9 +368,24 @@ def config_rules(ctx: Ctx) -> None:
               construct="a configuration attribute is assigned after the vocabulary was built", message=f"{[short(a) for a in late]}", file=init.file,
               node=late[0] if late else init.node)
     n = 0
+    rebound = {x.id for x in walk_local(init.node) if isinstance(x, ast.Name) and isinstance(x.ctx, ast.Store)}
+    local_defs = {}
+    for a in walk_local(init.node):
+        if isinstance(a, ast.Assign) and len(a.targets) == 1 and isinstance(a.targets[0], ast.Name):
+            local_defs.setdefault(a.targets[0].id, []).append(a)
+
+    def mentions(e, prm):
+        """`e` is computed from the parameter: it names it, or names a local whose one definition (unconditional, earlier) names it."""
+        for x in ast.walk(e):
+            if isinstance(x, ast.Name) and x.id == prm:
+                return True
+            if isinstance(x, ast.Name) and len(local_defs.get(x.id, [])) == 1 and not path_conditions(local_defs[x.id][0]) \
+                    and any(isinstance(y, ast.Name) and y.id == prm for y in ast.walk(local_defs[x.id][0].value)):
+                return True
+        return False
     for prm in init.params[1:]:
         mine = [a for a in stores if any(attr_chain(t) == ["self", prm] for t in a.targets)]
-        direct = [a for a in mine if any(isinstance(x, ast.Name) and x.id == prm for x in ast.walk(a.value)) and not path_conditions(a) and a.lineno < build_line]
+        direct = [a for a in mine if mentions(a.value, prm) and not path_conditions(a) and a.lineno < build_line]
         n += 1
         ctx.check(len(direct) == 1, "CONFIG", f"parameter `{prm}` is stored in `self.{prm}` unconditionally, before the vocabulary is built", function=init.qualname,
                   construct=f"constructor parameter `{prm}` does not reach `self.{prm}`", message=f"{[short(a, 70) for a in mine]}: the vocabulary and the emitter read "
@@ -367,7 +394,10 @@ def config_rules(ctx: Ctx) -> None:
             if a in direct:
                 continue
             pcs = path_conditions(a)
-            ok = len(pcs) == 1 and pcs[0][1] and isinstance(pcs[0][0], ast.Compare) and attr_chain(pcs[0][0].left) == ["self", prm] \
+            # (the parameter itself says the same as the attribute it was just stored in, as long as it is never rebound)
+            ok = len(pcs) == 1 and pcs[0][1] and isinstance(pcs[0][0], ast.Compare) \
+                and (attr_chain(pcs[0][0].left) == ["self", prm] or (isinstance(pcs[0][0].left, ast.Name) and pcs[0][0].left.id == prm and prm not in rebound
+                                                                    and any(d.lineno < a.lineno for d in direct))) \
                 and isinstance(pcs[0][0].ops[0], (ast.Is, ast.Eq)) and isinstance(pcs[0][0].comparators[0], ast.Constant) and pcs[0][0].comparators[0].value is None
             ctx.check(ok, "CONFIG", f"the default of `self.{prm}` is installed exactly when no value was given", function=init.qualname,
                       construct=f"default of `self.{prm}` installed under a condition other than `self.{prm} is None`",
